@@ -25,6 +25,7 @@ D1 = 0x501000           # data page 1 (0x1000): 0x500ffe.. straddles
 RO = 0x502000           # read-only page
 HOLE = 0x503000         # never mapped
 STACK_SIZE = 0x1000
+STACK_BASE = 0x1230000
 TICK_CAP = 3000
 CP_CAP = 6000
 
@@ -150,29 +151,29 @@ class Program(object):
             if not line:
                 continue
             if line.endswith(":"):
-                items.append(("label", line[:-1], 0))
+                items.append(("label", line[:-1], 0, line))
                 continue
             op, _, rest = line.partition(" ")
             rest = rest.strip()
             if op in JCC and rest and not rest.startswith("0x"):
-                items.append(("jcc", (JCC[op], rest), 6))
+                items.append(("jcc", (JCC[op], rest), 6, line))
             elif op in ("JMP", "CALL") and rest and rest not in REG32 and not rest.startswith(("0x", "DWORD", "[")):
-                items.append((op.lower(), rest, 5))
+                items.append((op.lower(), rest, 5, line))
             elif op == "MOV" and "," in rest and rest.split(",")[0].strip() in REG32 and \
                     LABEL_RE.match(rest.split(",")[1].strip()):
-                items.append(("movlabel", (REG32[rest.split(",")[0].strip()], rest.split(",")[1].strip()), 5))
+                items.append(("movlabel", (REG32[rest.split(",")[0].strip()], rest.split(",")[1].strip()), 5, line))
             elif op == "MOV" and rest.startswith("BYTE PTR [cell"):
                 # MOV BYTE PTR [cellN+k], 0xVV
                 inside = rest[rest.index("[") + 1:rest.index("]")]
                 name, _, k = inside.partition("+")
                 val = int(rest.split(",")[1].strip(), 16)
-                items.append(("movbyte", (name, int(k or 0), val), 7))
+                items.append(("movbyte", (name, int(k or 0), val), 7, line))
             else:
                 b = sa.asm(line)
-                items.append(("raw", b, len(b)))
+                items.append(("raw", b, len(b), line))
         labels = {}
         off = CODE
-        for kind, payload, size in items:
+        for kind, payload, size, _ in items:
             if kind == "label":
                 if payload in labels:
                     raise Discard("duplicate label")
@@ -181,10 +182,12 @@ class Program(object):
         buf = bytearray()
         instrs = []
         off = CODE
-        for kind, payload, size in items:
+        self.text_at = {}
+        for kind, payload, size, text in items:
             if kind == "label":
                 continue
             instrs.append((off, size))
+            self.text_at[off] = text
             nxt = off + size
             try:
                 if kind == "raw":
@@ -497,6 +500,7 @@ class TestRun(object):
         self.cp_digests = []            # digests of all control points (host-write mode)
         self.fault_stops = 0
         self.pending_fault = None
+        self.last_exec_pc = None
         self.j = None
         self.callbacks = [self._make_cb(k) for k in range(3)]
         self.instr_addrs = [a for a, _ in prog.instrs]
@@ -626,7 +630,7 @@ class TestRun(object):
             self.probe("host_write_" + a[2])
             self.log.add(" act hw", hex(addr), data.hex())
         elif k == "unmap":
-            page = [D0, D1, RO][a[2] % 3]
+            page = [D0, D1, RO, STACK_BASE][a[2] % 4]
             if page in self.held:
                 return False
             mem = j.vm.get_all_memory()
@@ -637,7 +641,7 @@ class TestRun(object):
             self.probe("fault_injected_unmap")
             self.log.add(" act unmap", hex(page))
         elif k == "perm":
-            page = [D0, D1][a[2] % 2]
+            page = [D0, D1, STACK_BASE][a[2] % 3]
             if page in self.held or page in self.perm:
                 return False
             self.perm[page] = j.vm.get_mem_access(page)
@@ -675,6 +679,7 @@ class TestRun(object):
         return cb
 
     def exec_cb(self, jitter):
+        self.last_exec_pc = jitter.pc
         if self.control_point("exec", jitter):
             self.stop_expected_pc = jitter.pc
             return False
@@ -701,6 +706,16 @@ class TestRun(object):
             raise Violation(self.pid + "/wrong-pc", "fault stop reports pc %#x, reference tick %d is at %#x"
                             % (jitter.pc, self.cur_tick, self.ref.pcs[self.cur_tick]), facts)
         self.pending_fault = None
+        text = self.prog.text_at.get(jitter.pc, "")
+        if "0x500ff" in text:
+            self.probe("fault_on_straddling_access")
+        if text.startswith(("PUSH", "POP", "CALL", "RET")):
+            self.probe("fault_kind_stack")
+        elif "PTR [" in text and text.split(",")[0].find("PTR [") >= 0:
+            self.probe("fault_kind_rmw" if not text.startswith("MOV") else "fault_kind_store")
+        elif "PTR [" in text:
+            self.probe("fault_kind_load")
+        self.probe("fault_at_block_start" if jitter.pc == self.last_exec_pc else "fault_inside_block")
         if self.cfg.get("heal", True):
             jitter.vm.set_exception(0)
             self.heal(jitter)
